@@ -16,7 +16,7 @@ from . import batch as B, env, observe as O, refmodel as R, spec as S
 
 
 class Member:
-    __slots__ = ("obj", "items", "fillable", "origin", "tag")
+    __slots__ = ("obj", "items", "fillable", "origin", "tag", "pure")
 
     def __init__(self, obj, items, fillable, origin, tag):
         self.obj = obj
@@ -24,6 +24,7 @@ class Member:
         self.fillable = fillable
         self.origin = origin
         self.tag = tag
+        self.pure = True  # never went through JSON (which drops Count transforms by design)
 
 
 PURE_READS = ("toJson", "toJsonString", "eq", "ne", "hash", "repr", "children", "n_dim", "datatype")
@@ -207,6 +208,7 @@ class History:
             return None
         self.frame(before, set(), desc)
         m = self.new_member(obj, items, fillable, origin)
+        m.pure = origin != "json" and all(self.pool[s].pure for s in sources)
         self.count("op:" + origin)
         self.ghost_check(m, desc)
         if perturb and self.profile.get("perturb", True):
@@ -248,6 +250,7 @@ class History:
         a.items = a.items + b_items
         # sparse bins adopted from a JSON reload carry no quantity: the sum is fillable only if both sides are
         a.fillable = a.fillable and b.fillable
+        a.pure = a.pure and b.pure
         self.count("op:iadd")
         self.frame(before, {i}, desc)
         if expect is not None:
@@ -266,6 +269,9 @@ class History:
         f = self.rng.choice(S.FACTORS_POS if self.rng.random() < 0.75 else S.FACTORS_NONPOS)
         left = self.rng.random() < 0.5
         desc = ("%r * %s" % (S.jsonable(f), a.tag)) if left else ("%s * %r" % (a.tag, S.jsonable(f)))
+        if self.has_transform and not a.pure:
+            # a JSON reload has forgotten the transform: its Counts are plain numbers, outside the ghost model
+            return self.op_read(i)
         if self.has_transform:
             # a Count with a non-identity transform refuses scaling (ContainerException) when the scaling
             # reaches it; if it is not reached (empty sparse container, f <= 0) the product must still obey
